@@ -11,7 +11,7 @@ import (
 
 func init() {
 	register("I6T", "script-integer overflow in lib/time: 64-bit arithmetic on an integer operand supplied by the script (duration * int) is overflow-checked or bounded", 1, ruleI6T)
-	register("I6", "script-integer overflow: Go integer +, -, * and << on 64-bit operands that are full-range integers chosen by the script (unpacked into a Go int, obtained from Int64/Uint64, or fields of rangeValue) are preceded by a dominating bound on the operand, or listed with the reason why wrapping is harmless; otherwise the built-in can wrap silently", 8, ruleI6)
+	register("I6", "script-integer overflow: Go integer +, -, * and << on 64-bit operands that are full-range integers chosen by the script (unpacked into a Go int, obtained from Int64/Uint64, or fields of rangeValue) are preceded by a dominating bound on the operand, or listed with the reason why wrapping is harmless; otherwise the built-in can wrap silently", 3, ruleI6)
 }
 
 // i6Exceptions: arithmetic on full-range script integers that cannot change a result.
@@ -26,7 +26,7 @@ var i6Exceptions = map[string]string{
 }
 
 // i6Known: confirmed genuine overflow sites (also listed in known_findings.json).
-func ruleI6(c *Ctx)  { ruleI6In(c, "", 5) }
+func ruleI6(c *Ctx)  { ruleI6In(c, "", 3) }
 func ruleI6T(c *Ctx) { ruleI6In(c, modPath+"/lib/time", 1) }
 
 func ruleI6In(c *Ctx, onlyPkg string, floor int) {
